@@ -1,0 +1,28 @@
+//go:build verif
+
+package httpgrpc
+
+// Exports for the verification harness under /verif. Compiled only with the
+// "verif" build tag; adds no behaviour.
+
+var (
+	VerifHeadersFromContext = headersFromContext
+	VerifContextFromHeaders = contextFromHeaders
+	VerifAsMetadata         = asMetadata
+	VerifToHeaders          = toHeaders
+	VerifReadSizePreface    = readSizePreface
+	VerifReadProtoMessage   = readProtoMessage
+	VerifWriteProtoMessage  = writeProtoMessage
+	VerifHttpStatusFromCode = httpStatusFromCode
+	VerifCodeFromHttpStatus = codeFromHttpStatus
+	VerifStatFromResponse   = statFromResponse
+	VerifGetUnaryCodec      = getUnaryCodec
+	VerifGetStreamingCodec  = getStreamingCodec
+	VerifGetPeer            = getPeer
+	VerifSetMetadata        = setMetadata
+	VerifAsTrailerProto     = asTrailerProto
+	VerifMetadataFromProto  = metadataFromProto
+	VerifStatusFromCtxError = statusFromContextError
+)
+
+const VerifMaxMessageSize = maxMessageSize
